@@ -157,6 +157,32 @@ func Gen(r *core.RNG, o Options) *model.Schema {
 			g.s.Type(n).UseIsTypeOf = true
 		}
 	}
+	// covariant implementations: where an interface field returns an abstract
+	// type, an implementer may narrow it to one of its possible object types
+	// (this is also what makes schema construction consult the possible-type
+	// tables, see Schema.IsPossibleType)
+	g.s.Reindex()
+	for _, n := range g.objs {
+		td := g.s.Type(n)
+		for _, in := range td.Interfaces {
+			for _, f := range g.s.Type(in).Fields {
+				of := td.Field(f.Name)
+				base := g.s.Type(f.Type.Base())
+				if of == nil || base == nil || (base.Kind != model.Interface && base.Kind != model.Union) || !r.Chance(30) {
+					continue
+				}
+				if p := g.s.PossibleTypes(base.Name); len(p) > 0 && of.Type.Base() == base.Name {
+					nf := *of
+					nf.Type = replaceBase(of.Type, p[r.Intn(len(p))])
+					for i, x := range td.Fields {
+						if x == of {
+							td.Fields[i] = &nf
+						}
+					}
+				}
+			}
+		}
+	}
 	// Query root: reach everything
 	q := g.s.Type("Q")
 	i := 0
@@ -211,6 +237,16 @@ func Gen(r *core.RNG, o Options) *model.Schema {
 	}
 	g.s.Reindex()
 	return g.s
+}
+
+func replaceBase(t *model.TypeRef, name string) *model.TypeRef {
+	switch t.Kind {
+	case "list":
+		return model.ListOf(replaceBase(t.Of, name))
+	case "nonnull":
+		return model.NonNull(replaceBase(t.Of, name))
+	}
+	return model.Named(name)
 }
 
 func min(a, b int) int {
